@@ -811,6 +811,13 @@ def run(ctx):
                   exhaustive=True)
     if ctx.stop():
         return
+    # compound class "one child deleted, a sibling of another kind duplicated" (the count of children is kept, the counts per kind are not)
+    sp_bases = dm_bases + [{"file": f} for f in (all_files() if ctx.thorough() else sorted(complete)[:ctx.scale(12, 12)])]
+    ctx.enumerate(ctx.p_single, ({"base": b, "faults": fs} for b in sp_bases for fs in load_base(b)[0].sibling_pairs()), batch=40,
+                  name="compensating sibling pairs: a child deleted + a sibling of another tag duplicated, under every parent (zoo, generated models, %s shipped models)"
+                  % ("all" if ctx.thorough() else "12"), exhaustive=True)
+    if ctx.stop():
+        return
     ctx.enumerate(ctx.p_min, ({"min": k} for k in MINIMAL if ctx.thorough() or k not in SLOW_MINIMAL), batch=1,
                   name="hand-minimised models of findings/C12.md", exhaustive=True)
     if ctx.stop():
